@@ -55,7 +55,8 @@ class Sim:
             p["pre_ops"] = 1                      # never an empty main thread
         self.rank = p["rank"]
         self.ev: List[Dict[str, Any]] = []
-        self.corr = self.r.randint(2 ** 20, 2 ** 30) if p["big_corr"] else self.r.randint(1, 50)
+        # CUPTI correlation ids are unsigned 32-bit counters: big ids reach beyond 2^31
+        self.corr = self.r.choice([self.r.randint(2 ** 20, 2 ** 30), 2 ** 31 - self.r.randint(1, 40), self.r.randint(2 ** 31, 2 ** 32 - 5000)]) if p["big_corr"] else self.r.randint(0, 50)
         self.host_pid = 4000 + self.rank
         self.streams = self.r.sample(STREAM_IDS, p["n_streams"])
         self.free_at = {s: 0 for s in self.streams}
